@@ -1226,7 +1226,15 @@ def m_from_residual(tr, c):
     d = c.dest()
     n = d.node
     tr.emit(f"{tr.lv(Loc(n.discr, d.idxs))} = {n.vindex('Err')};")
-    tr.copy(Loc(n.variants[n.vindex('Err')][1].fields[0], d.idxs), Loc(r.node.variants[r.node.vindex('Err')][1].fields[0], r.idxs))
+    de = n.variants[n.vindex('Err')][1].fields[0]
+    se = r.node.variants[r.node.vindex('Err')][1].fields[0]
+    if de.kind == "enum" and se.kind != "enum" and "Database" in [v[0] for v in de.variants]:
+        # impl<DBError> From<DBError> for EVMError<DBError>: EVMError::Database(e)
+        di = de.vindex("Database")
+        tr.emit(f"{tr.lv(Loc(de.discr, d.idxs))} = {di};")
+        tr.copy(Loc(de.variants[di][1].fields[0], d.idxs), Loc(se, r.idxs))
+        return
+    tr.copy(Loc(de, d.idxs), Loc(se, r.idxs))
 
 
 @model("<Option as Try>::branch", doc="`?` on Option")
